@@ -135,7 +135,7 @@ def observe_disk(path, world):
         # structurally broken: the clauses of C03 fire on the table; give the spec
         # a data region of the right length so that FileLen is still meaningful
         ext = [[-1, 0, max(len(raw) - te, 0)]] if len(raw) > te else []
-    return dict(sigok=bool(p.sigok), short=bool(p.short), version=p.version, n=max(p.n, 0) if not p.short else 0,
+    return dict(broken=not ok, sigok=bool(p.sigok), short=bool(p.short), version=p.version, n=max(p.n, 0) if not p.short else 0,
                 flen=len(raw), sha=world.sha_id(p.sha), table=rows if not p.short else [], data=ext), p
 
 
@@ -155,6 +155,7 @@ class Driver:
         self.decodable = list(decodable)
         self.tdf = Tdf(path)
         self.inside = False
+        self.stuck = False
 
     # ------------------------------------------------------------ observation
     def block_uid(self, blk):
@@ -245,6 +246,7 @@ class Driver:
                 with guarded(60):
                     view = self.view()
             except (LibraryTimeout, MemoryError):
+                self.stuck = True
                 view = dict(self.NOVIEW, on=True, len=RAISED, has=[RAISED] * len(self.types),
                             get=[RAISED] * len(self.types), getter=[RAISED] * len(self.types),
                             idx=[RAISED] * disk["n"], oob=RAISED)
@@ -366,7 +368,14 @@ def run_trace(path, world, types, decodable, schedule, meta=None):
     """the initial file must already exist at path"""
     drv = Driver(path, world, types, decodable)
     init = drv.observe(with_view=False)
-    steps = [drv.execute(op) for op in schedule]
+    steps = []
+    for op in schedule:
+        ev = drv.execute(op)
+        steps.append(ev)
+        # a structurally broken file (the trace spec stops judging there too) or a library call
+        # that ran into the time / memory guard ends the history: nothing after it is meaningful
+        if ev["obs"]["disk"]["broken"] or drv.stuck or "LibraryTimeout" in ev["res"]["mro"]:
+            break
     # leave no handle behind
     if drv.inside:
         try:
